@@ -10,7 +10,7 @@
 (***************************************************************************)
 EXTENDS BvLane
 
-IntOpsC01 == {"add", "sub", "mul", "neg", "abs", "min", "max", "incr", "decr", "incr_if", "decr_if",
+IntOpsC01 == {"add", "sub", "mul", "neg", "abs", "min", "max", "fmin", "fmax", "incr", "decr", "incr_if", "decr_if",
               "fma", "fms", "fnma", "fnms", "divmod", "sign", "sadd", "ssub", "avg", "avgr", "clip",
               "op+", "op-", "op*", "op/%", "op-u"}
 IntOpsC07 == {"and", "or", "xor", "not", "andnot", "op&", "op|", "op^", "op~", "shl", "shr", "rotl", "rotr",
@@ -37,8 +37,8 @@ IntRel(op, S, x, y, z, m, imm, r) ==
     [] op \in {"mul", "op*"}  -> r = VMul(x, y)
     [] op \in {"neg", "op-u"} -> r = VNeg(x)
     [] op = "abs"     -> r = VAbs(S, x)
-    [] op = "min"     -> r = VMin(S, x, y)
-    [] op = "max"     -> r = VMax(S, x, y)
+    [] op \in {"min", "fmin"} -> r = VMin(S, x, y)
+    [] op \in {"max", "fmax"} -> r = VMax(S, x, y)
     [] op = "incr"    -> r = VIncr(x)
     [] op = "decr"    -> r = VDecr(x)
     [] op = "incr_if" -> r = IF m THEN VIncr(x) ELSE x
